@@ -299,7 +299,50 @@ pub struct GenStats {
 
 /// Generate the atoms of one session. `atoms` is filled incrementally so that a panic of the
 /// shadow terminal (possible only on a defective tree) still leaves the history that caused it.
+thread_local! {
+    /// Where the generator publishes the history it has produced so far (configuration + atoms),
+    /// so that the watchdog can still report a trace when the *shadow* terminal never returns.
+    pub static GEN_LOG: std::cell::RefCell<Option<std::sync::Arc<std::sync::Mutex<(Option<Config>, Vec<Atom>)>>>> = std::cell::RefCell::new(None);
+}
+
+fn log_atom(a: &Atom) {
+    GEN_LOG.with(|g| {
+        if let Some(l) = g.borrow().as_ref() {
+            l.lock().unwrap().1.push(a.clone());
+        }
+    });
+}
+
+/// The events of a generation log, with the simplest schedule (one feed_str per run of characters).
+pub fn events_of_log(atoms: &[Atom]) -> Vec<Event> {
+    let mut out = vec![];
+    let mut cur = String::new();
+    for a in atoms {
+        match a {
+            Atom::Ch(c, _) => cur.push(*c),
+            Atom::Ev(e) => {
+                if !cur.is_empty() {
+                    out.push(Event::FeedStr { s: std::mem::take(&mut cur), drain: Drain::All });
+                }
+                out.push(e.clone());
+            }
+        }
+    }
+    if !cur.is_empty() {
+        out.push(Event::FeedStr { s: cur, drain: Drain::All });
+    }
+    out
+}
+
 pub fn gen_session(r: &mut Rng, cfg: &Config, o: &SessionOpts, atoms: &mut Vec<Atom>, gs: &mut GenStats) {
+    GEN_LOG.with(|g| {
+        if let Some(l) = g.borrow().as_ref() {
+            let mut l = l.lock().unwrap();
+            if l.0.is_none() {
+                l.0 = Some(cfg.clone());
+            }
+        }
+    });
     let p = &o.profile;
     let mut shadow = build(cfg.cols, cfg.rows, cfg.limit);
     let mut sparser = Parser::new();
@@ -363,6 +406,7 @@ pub fn gen_session(r: &mut Rng, cfg: &Config, o: &SessionOpts, atoms: &mut Vec<A
         }
         let first: String = chars[..split].iter().collect();
         for (i, ch) in first.chars().enumerate() {
+            log_atom(&Atom::Ch(ch, i > 0));
             atoms.push(Atom::Ch(ch, i > 0));
         }
         feed_shadow(&mut shadow, &mut sparser, &mut alt, &first);
@@ -379,6 +423,7 @@ pub fn gen_session(r: &mut Rng, cfg: &Config, o: &SessionOpts, atoms: &mut Vec<A
                     if alt {
                         gs.resize_alt += 1;
                     }
+                    log_atom(&Atom::Ev(e.clone()));
                     atoms.push(Atom::Ev(e.clone()));
                     shadow.resize(*c, *rw);
                     cols = *c;
@@ -389,13 +434,18 @@ pub fn gen_session(r: &mut Rng, cfg: &Config, o: &SessionOpts, atoms: &mut Vec<A
                     if sparser.state != State::Ground {
                         gs.snapshot_mid_seq += 1;
                     }
+                    log_atom(&Atom::Ev(e.clone()));
                     atoms.push(Atom::Ev(e.clone()));
                 }
-                _ => atoms.push(Atom::Ev(e.clone())),
+                _ => {
+                    log_atom(&Atom::Ev(e.clone()));
+                    atoms.push(Atom::Ev(e.clone()))
+                }
             }
         }
         let second: String = chars[split..].iter().collect();
         for (i, ch) in second.chars().enumerate() {
+            log_atom(&Atom::Ch(ch, split > 0 || i > 0));
             atoms.push(Atom::Ch(ch, split > 0 || i > 0));
         }
         feed_shadow(&mut shadow, &mut sparser, &mut alt, &second);
